@@ -493,12 +493,24 @@ def _eq(left: object, right: object) -> bool:  # noqa: PLR0911
     if left is NOTHING and right is NOTHING:
         return True
 
-    # Remember 1 == True and 0 == False in Python
-    if isinstance(right, bool):
-        left, right = right, left
+    return _value_eq(left, right)
 
-    if isinstance(left, bool):
-        return isinstance(right, bool) and left == right
+
+def _value_eq(left: object, right: object) -> bool:
+    """JSON value equality, never equating booleans with numbers at any depth."""
+    # Remember 1 == True and 0 == False in Python
+    if isinstance(left, bool) or isinstance(right, bool):
+        return isinstance(left, bool) and isinstance(right, bool) and left == right
+
+    if isinstance(left, list) and isinstance(right, list):
+        return len(left) == len(right) and all(
+            _value_eq(a, b) for a, b in zip(left, right)  # noqa: B905
+        )
+
+    if isinstance(left, dict) and isinstance(right, dict):
+        return left.keys() == right.keys() and all(
+            _value_eq(val, right[key]) for key, val in left.items()
+        )
 
     return left == right
 
@@ -506,6 +518,10 @@ def _eq(left: object, right: object) -> bool:  # noqa: PLR0911
 def _lt(left: object, right: object) -> bool:
     if isinstance(left, str) and isinstance(right, str):
         return left < right
+
+    # Booleans are not numbers and are never ordered.
+    if isinstance(left, bool) or isinstance(right, bool):
+        return False
 
     if isinstance(left, (int, float)) and isinstance(right, (int, float)):
         return left < right
